@@ -18,6 +18,7 @@
 From Coq Require Import ZArith List Bool.
 From TD Require Import Lib.Bytes Lib.GoSem Gen.CodecConsts Model.Codec Model.CodecSend
   Proof.Codec Proof.CodecRT Proof.CodecSend Lib.ReadFull Proof.ReadFullInst.
+From TD Require Model.Obfs2 Proof.Obfs2Listen.
 Import ListNotations.
 Open Scope Z_scope.
 
@@ -93,6 +94,17 @@ Theorem C16_detect_full :
     detect (f ++ rest) = Ok (Full, f ++ rest).
 Proof. exact detect_full_frame. Qed.
 Print Assumptions C16_detect_full.
+
+(* "With obfuscation": the TCP obfuscated listener (transport/obfuscated.go) puts the protocol tag
+   recovered from the obfuscated2 header back in front of the decrypted stream -- one byte for
+   abridged, four otherwise (condition regenerated from the source, Gen/Obfs2Consts.v) -- and
+   detection then returns the codec whose ObfuscatedTag the client announced.  (That the server
+   recovers exactly the announced tag is C18_meta / C18_listener_session.) *)
+Theorem C16_detect_obfuscated :
+  forall (c : codec) (s : bytes),
+    c <> Full -> detect (Obfs2.replay_tag (Obfs2Listen.obf_tag c) ++ s) = Ok (c, s).
+Proof. exact Obfs2Listen.obf_listener_detect. Qed.
+Print Assumptions C16_detect_obfuscated.
 
 (* Concurrent senders on one connection.  Transition system of Model/CodecSend.v: Send = lock;
    codec.Write in any number of conn.Write calls, frame number taken under the lock; unlock.  A
